@@ -12,6 +12,7 @@ import (
 	"github.com/elastic/go-structform/ubjson"
 
 	"verif/mc/engine"
+	"verif/mc/gen"
 	"verif/mc/model"
 )
 
@@ -50,12 +51,12 @@ var c10Positions = []c10Position{
 
 var c10SecondDoc = []model.Event{model.ArrStart(1, 0), model.Str("second"), model.ArrEnd()}
 
-const c10Consumers = 12
+const c10Consumers = 13
 
 func c10ConsumerName(i int) string {
 	return [...]string{"json.Visitor", "ubjson.Visitor", "cborl.Visitor", "gotype.Unfolder(interface{})", "gotype.Unfolder(typed)", "EnsureExtVisitor(plain)",
 		"EnsureExtVisitor(ubjson:only-arrays)", "EnsureExtVisitor(ubjson:only-maps)", "EnsureExtVisitor(ubjson:only-stringref)",
-		"EnsureExtVisitor(cborl:only-arrays)", "EnsureExtVisitor(cborl:only-maps)", "EnsureExtVisitor(cborl:only-stringref)"}[i]
+		"EnsureExtVisitor(cborl:only-arrays)", "EnsureExtVisitor(cborl:only-maps)", "EnsureExtVisitor(cborl:only-stringref)", "gotype.Unfolder(string targets)"}[i]
 }
 
 func init() {
@@ -112,6 +113,9 @@ func c10Body(x *engine.Exec, pos c10Position, cons int, ev model.Event, isKey bo
 	if cons == 4 && (ev.K < model.KBoolArray || pos.name != "top") {
 		return // typed targets only make sense for a top-level typed array/map
 	}
+	if cons == 12 && (ev.K >= model.KBoolArray || (pos.name != "top" && pos.name != "object-value" && pos.name != "key")) {
+		return // string-typed targets (reached through pointers, named types, struct fields, map keys) only for by-reference strings
+	}
 	name := c10ConsumerName(cons)
 	class := leafClass(ev)
 	x.Case(fmt.Sprintf("%s|%s|%s", pos.name, name, ev.String()), streamSize([]model.Event{ev}) > 1)
@@ -147,6 +151,30 @@ func c10Body(x *engine.Exec, pos c10Position, cons int, ev model.Event, isKey bo
 			u, err := gotype.NewUnfolder(target)
 			if err != nil {
 				engine.Fail("typed target %T refused: %v", target, err)
+			}
+			raw, v = u, structform.EnsureExtVisitor(u)
+		case 12:
+			switch pos.name {
+			case "top":
+				target = new(**string)
+			case "object-value":
+				target = &struct {
+					K *string          `struct:"k"`
+					N *gen.SeedMyStr   `struct:"n"`
+					Z map[string]**int `struct:"z"`
+				}{}
+			default:
+				target = &map[string]*int{}
+			}
+			if pos.name == "object-value" {
+				target = &struct {
+					K **string `struct:"k"`
+					Z *int     `struct:"z"`
+				}{}
+			}
+			u, err := gotype.NewUnfolder(target)
+			if err != nil {
+				engine.Fail("string target refused: %v", err)
 			}
 			raw, v = u, structform.EnsureExtVisitor(u)
 		case 5:
@@ -189,7 +217,7 @@ func c10Body(x *engine.Exec, pos c10Position, cons int, ev model.Event, isKey bo
 				r.fp = model.Fingerprint(raw, model.FPOpts{Skip: c17IdleSkip})
 			}
 			stop := len(evs)
-			if cons == 3 || cons == 4 {
+			if cons == 3 || cons == 4 || cons == 12 {
 				stop -= len(c10SecondDoc) // one target, one document
 			}
 			if _, err := model.Drive(v, evs[nAfterX:stop]); err != nil {
@@ -231,7 +259,7 @@ func c10Body(x *engine.Exec, pos c10Position, cons int, ev model.Event, isKey bo
 	}
 	x.Count("pairs_compared", 1)
 	switch {
-	case cons == 3 || cons == 4:
+	case cons == 3 || cons == 4 || cons == 12:
 		if a.val != b.val {
 			x.Violation(name, "wrong-value", class, "unfolded values differ", wit())
 			return
